@@ -96,6 +96,12 @@ C["C07"] = ("Coq theorems over a model of the backend-connection table (lookup, 
             "server's reply, over a connection with a never-used id and one more accept when the old one is gone; the first redirection's refresh makes the table equal the layout as soon "
             "as a configured host is reachable, and an up-to-date table never redirects. Tie: fault histories through the real processor against the simulator vs the extracted model.",
             "Faults between requests; the removal of a lost connection and the choice of the refresh host are scheduling/random facts (sampled).", "DESIGN.md §4 C07")
+C["C20"] = ("Coq theorems over the counters as functions of the event history (connections arriving, handlers returning, requests dispatched/completed, Stop), for EVERY history and "
+            "limit: total = destroyed + registered, the active gauge equals the number of registered connections (never negative), the registry never exceeds the limit and a connection "
+            "under it is served, requests total = success + failure + in flight, each command's total = dispatched and success + error = completed; the quiescent equalities follow. "
+            "Tie: histories with traffic, rejected requests, backend faults, limits and Stop against the real processor; the public stats are read after quiescence, checked against the "
+            "equations and compared with the model run on the observed history.",
+            "Upstream counters: conservation only (the refresh's own requests are not predicted); TCP processor counters via C05.", "DESIGN.md §4 C20")
 checks = []
 for pid in sorted(C):
     text, note, ref = C[pid]
